@@ -798,7 +798,7 @@ def replay(case, col):
 def plan(tier, seed, scale=1.0):
     thorough = tier == 'thorough'
     nshard = 16
-    total = int((60000 if thorough else 1200) * scale)
+    total = int((60000 if thorough else 2000) * scale)
     return [{'part': 'paths', 'shard': i, 'nshard': nshard, 'n_paths': max(4, total // nshard),
              'maxdepth': 12 if thorough else 8, 'timeout': 4 * 3600 if thorough else 900} for i in range(nshard)]
 
